@@ -11,6 +11,10 @@ import PycsepVerif.Model.NumberTestPub
                                    n rows; evaluated through delta12S = delta12 by `stable_eq`, anchor = min(n, ⌊total⌋))
   c07_pubn  base scales n var   -> "d1 d2 total"  (nbdNumberTestPub, the same way)
   c07_shift n                   -> "a b epsnum/epsden epsbits" (shiftF n; the rational epsF; the Float epsCode)
+  c07_pubh  base ops n          -> "d1 d2 total"  (numberTestPub after a history of scale / scale_to_test_date calls, see parseOp?)
+  c07_pubhn base ops n var      -> "d1 d2 total"  (nbdNumberTestPub, the same way)
+  c07_shifte n eps              -> "a b"           (shiftFE eps n: any epsilon argument, a rational n/d)
+  c07_ups   mean var            -> "u d"           (upsilonF = 1.0 - ((var - mean) / var) in Soft64; upsilonDirectF = mean / var)
   c07_puba  base factors n      -> "d1 d2 total"  (numberTestPubA: array-valued scale factor, broadcast by the caller)
   c07_puban base factors n var  -> "d1 d2 total"  (nbdNumberTestPubA)
   c07_cf    apply k ncat cats nobs -> "k:n k:n"   (catalogNTestCF after k earlier passes; an event is 1 = kept by the
@@ -19,6 +23,15 @@ namespace Drive.C07
 open Proto NumberTest
 
 def show2 (p : Float × Float) : String := s!"{showFloat p.1} {showFloat p.2}"
+
+/-- one history entry: `s<bits>` = scale(v); `i<bits>` = scale_to_test_date inside the period with that fraction;
+    `o<bits>` = scale_to_test_date outside the period -/
+def parseOp? (s : String) : Option (ScaleOp Float) :=
+  match s.toList with
+  | 's' :: r => (parseFloat? (String.ofList r)).map ScaleOp.set
+  | 'i' :: r => (parseFloat? (String.ofList r)).map (ScaleOp.toDate true)
+  | 'o' :: r => (parseFloat? (String.ofList r)).map (ScaleOp.toDate false)
+  | _ => none
 
 def handle : List String → Option String
   | ["c07_pois", mu, n, a, e] => some (match parseFloat? mu, n.toNat?, a.toNat?, parseFloat? e with
@@ -77,5 +90,26 @@ def handle : List String → Option String
   | ["c07_shift", n] => some (match n.toNat? with
       | some n => let p := shiftF n; s!"{p.1} {p.2} {showRat epsF} {showFloat (epsCode : Float)}"
       | none => "bad-op")
+  | ["c07_pubh", base, ops, n] => some (match parseList? parseFloat? base, parseList? parseOp? ops, n.toNat? with
+      | some base, some ops, some n =>
+          let f : GF Float := (GF.init base).applyAll ops
+          let mu := f.eventCount
+          let a := if mu < 0.0 then 0 else min n (Float.floor mu).toUInt64.toNat
+          s!"{show2 (delta12S mu a n (epsCode : Float))} {showFloat mu}"
+      | _, _, _ => "bad-op")
+  | ["c07_pubhn", base, ops, n, v] => some (match parseList? parseFloat? base, parseList? parseOp? ops, n.toNat?,
+        parseFloat? v with
+      | some base, some ops, some n, some v =>
+          let f : GF Float := (GF.init base).applyAll ops
+          let mu := f.eventCount
+          let a := if mu < 0.0 then 0 else min n (Float.floor mu).toUInt64.toNat
+          s!"{show2 (nbdDelta12S mu a n v (epsCode : Float))} {showFloat mu}"
+      | _, _, _, _ => "bad-op")
+  | ["c07_shifte", n, e] => some (match n.toNat?, parseRat? e with
+      | some n, some e => let p := shiftFE e n; s!"{p.1} {p.2}"
+      | _, _ => "bad-op")
+  | ["c07_ups", m, v] => some (match parseRat? m, parseRat? v with
+      | some m, some v => s!"{showRat (upsilonF m v)} {showRat (upsilonDirectF m v)}"
+      | _, _ => "bad-op")
   | _ => none
 end Drive.C07
